@@ -187,6 +187,14 @@ def cells_tie():
                     "CellsGen.")
 
 
+def hooks_tie():
+    """Simulator._add_event (registration) and the nine _trigger_event_* methods (dispatch) (C13)"""
+    import py2coq_hooks
+    src = os.path.join(REPO, "pams", "simulator.py")
+    return _run_tie("translator:pams/simulator.py(C13 hook table)", src, lambda: py2coq_hooks.translate(REPO), "HooksGen.v",
+                    "HooksC13Proofs.v", "HooksGen.")
+
+
 def holdings_sweep_c05(seed=0, tier="quick", cov=None):
     """directed search used with the C05 tie: the real Simulator._update_agents_for_execution on small populations and fill lists
     (self-trades, repeated parties, several markets), against the property text: the buyer pays price x volume and receives volume
